@@ -315,6 +315,11 @@ class Encoder(Coder):
                 values[idx] = value
 
             min_value, max_value = state.minmax(values)
+            if nbits_min_value > 1 and min_value == NUMERIC_MISSING_VALUES[nbits_min_value]:
+                # An all-ones minimum reads back as "all subsets missing", which
+                # contradicts the differences that follow it.
+                raise PyBufrKitError('{}: minimum of the compressed values coincides with '
+                                     'the missing value of the field'.format(descriptor))
             nbits_diff = nbits_for_uint(max_value - min_value + 1)
             # Now subtract the minimum from the values
             for idx, value in enumerate(values):
@@ -398,6 +403,11 @@ class Encoder(Coder):
             nbits_diff = 0
         else:
             min_value, max_value = state.minmax(values)
+            if nbits_min_value > 1 and min_value == NUMERIC_MISSING_VALUES[nbits_min_value]:
+                # An all-ones minimum reads back as "all subsets missing", which
+                # contradicts the differences that follow it.
+                raise PyBufrKitError('{}: minimum of the compressed values coincides with '
+                                     'the missing value of the field'.format(descriptor))
             nbits_diff = nbits_for_uint(max_value - min_value + 1)
             # Subtract the minimum from the values
             for idx, value in enumerate(values):
